@@ -49,11 +49,24 @@ constexpr std::uint8_t filler = 0xA5;   // payload = one tag byte + filler: stal
 inline void fill( std::uint8_t* body, std::uint8_t first, unsigned len ) { if ( len ) { memset( body, filler, len ); body[ 0 ] = first; } }
 inline bool filled( const std::uint8_t* body, unsigned len ) { for ( unsigned i = 1; i < len; ++i ) if ( body[ i ] != filler ) return false; return true; }
 
+// The harness owns Radio::lock_guard.  When armed, the constructor of the next guard runs a hook first: "the radio
+// interrupt arrives while the main context is about to take the lock" ( while a guard lives no interrupt runs ).
+struct LockHook { void ( *fn )( void* ) = nullptr; void* ctx = nullptr; bool armed = false; };
+inline LockHook& lock_hook() { static LockHook h; return h; }
+struct hooked_lock_guard
+{
+    hooked_lock_guard()
+    {
+        LockHook& h = lock_hook();
+        if ( h.armed ) { h.armed = false; h.fn( h.ctx ); }
+    }
+};
+
 template < std::size_t TX, std::size_t RX >
 struct Radio : bluetoe::link_layer::ll_data_pdu_buffer< TX, RX, Radio< TX, RX > >
 {
     using base = bluetoe::link_layer::ll_data_pdu_buffer< TX, RX, Radio< TX, RX > >;
-    struct lock_guard { lock_guard() {} };
+    using lock_guard = hooked_lock_guard;
 
     std::uint8_t rx_cnt, tx_cnt;    // packet counters ( mod IDM ), what a CCM nonce would be built from
     std::uint8_t empty_receive[ 3 ]; // nrf52_radio_base::empty_receive_
@@ -65,6 +78,7 @@ struct Radio : bluetoe::link_layer::ll_data_pdu_buffer< TX, RX, Radio< TX, RX > 
 
     // ---- driver: the buffer's protected "interface to the radio hardware", used like nrf52_radio_base uses it -------------
     static constexpr bool real_isr = false;
+    static constexpr std::size_t tx_size = TX, rx_size = RX;
     static const char* dut_name() { return "ll_data_pdu_buffer driven by a transcription of the nrf52 ISR decision table"; }
     static void extra_regions( mc::Regions& ) {}
     template < class P > static void place( P& p ) { p.construct(); }
@@ -97,7 +111,8 @@ struct Radio : bluetoe::link_layer::ll_data_pdu_buffer< TX, RX, Radio< TX, RX > 
 
 enum { C_DATA = 0, C_EMPTY = 1, C_RETX = 2, C_LLID0 = 3, NC = 4 };  // C_LLID0: new non-empty PDU with the reserved LLID 0
 enum { FT_OK = 0, FT_LOST = 1, FT_CRC = 2, FT_MIC = 3 };
-enum { U_NONE = 0, U_COMMIT1 = 1, U_COMMITMAX = 2, U_CONSUME = 3, U_CONSUME_LATE = 4, U_RESET = 5, NU = 6 };  // U_RESET: new connection
+enum { U_NONE = 0, U_COMMIT1 = 1, U_COMMITMAX = 2, U_CONSUME = 3, U_CONSUME_LATE = 4, U_RESET = 5,
+       U_COMMIT1_IRQ = 6, U_CONSUME_IRQ = 7, NU = 8 };  // U_RESET: new connection; *_IRQ: the radio interrupt of this event arrives when the call takes its lock
 enum { P_LOST, P_FULL, P_CRC, P_MIC, P_RECEIVED };
 
 inline const char* path_name( int p )
@@ -139,7 +154,8 @@ struct World
 
     // statistics only, not part of the state
     int  max_resets = 1;    // how often a path may start a new connection ( reset_pdu_buffer() ) on the same buffer object
-    int  max_llid0  = 1;    // how many non-empty PDUs with the reserved LLID 0 the central may send on a path
+    int  max_llid0  = 1;
+    bool with_irq   = true; // upper layer calls that are interrupted by the radio at their lock acquisition    // how many non-empty PDUs with the reserved LLID 0 the central may send on a path
     bool want_obs = false, in_drain = false;     // observations as text only for replays and samples
     bool class_seen[ 4096 ] = {};
     template < class F > void note_class( mc::Ctx& c, int code, F&& name )
@@ -182,7 +198,8 @@ struct World
         static const char* ca[] = { "central:new-data", "central:new-empty", "central:retransmit-last", "central:new-data-with-LLID-0" };
         static const char* fc[] = { "c->p:ok", "c->p:lost", "c->p:crc-error", "c->p:mic-error" };
         static const char* fp[] = { "p->c:ok", "p->c:lost" };
-        static const char* ua[] = { "upper:none", "upper:commit(1)", "upper:commit(27)", "upper:consume", "upper:consume-after-schedule", "upper:new-connection(reset_pdu_buffer)" };
+        static const char* ua[] = { "upper:none", "upper:commit(1)", "upper:commit(27)", "upper:consume", "upper:consume-after-schedule", "upper:new-connection(reset_pdu_buffer)",
+                                    "upper:commit(1)-interrupted-at-lock", "upper:consume-interrupted-at-lock" };
         const In i = decode( ev );
         return std::string( ua[ i.uact ] ) + " " + ca[ i.cact ] + " " + fc[ i.fcp ] + " " + fp[ i.fpc ];
     }
@@ -282,16 +299,40 @@ struct World
     }
 
     // ---------------------------------------------------------------------------------------------------------------
+    // placement: transmit PDUs live in the first TransmitSize bytes of the raw buffer, receive PDUs in the ReceiveSize bytes behind
+    bool in_tx_memory( const std::uint8_t* p, std::size_t n ) { const std::uint8_t* b = dut->raw_pdu_buffer(); return p >= b && p + n <= b + dut_t::tx_size; }
+    bool in_rx_memory( const std::uint8_t* p, std::size_t n ) { const std::uint8_t* b = dut->raw_pdu_buffer() + dut_t::tx_size; return p >= b && p + n <= b + dut_t::rx_size; }
+
+    // ---------------------------------------------------------------------------------------------------------------
     // upper layer
     bool can_commit() { return ref.n_not_at_central < sizeof ref.tx_sz && dut->allocate_transmit_buffer().size != 0; }
 
-    void do_commit( unsigned len, mc::Ctx& c )
+    // the interrupted calls: the rest of the connection event runs inside the constructor of the call's lock_guard
+    struct Irq { World* w; const In* in; mc::Ctx* c; read_buffer rb; bool full; };
+    static void irq_entry( void* p ) { Irq* q = static_cast< Irq* >( p ); q->w->radio_part( *q->in, *q->c, q->rb, q->full ); }
+    void arm( Irq& q ) { LockHook& h = lock_hook(); h.fn = &irq_entry; h.ctx = &q; h.armed = true; }
+    // true: the call took no lock at all, the interrupt is still pending
+    bool disarm() { LockHook& h = lock_hook(); const bool pending = h.armed; h.armed = false; return pending; }
+
+    void do_commit( unsigned len, mc::Ctx& c, Irq* irq = nullptr )
     {
         const read_buffer b = dut->allocate_transmit_buffer();
+        if ( !in_tx_memory( b.buffer, b.size ) )
+        {
+            viol( c, 15, "tx-buffer:outside-transmit-memory", mc::fmt( "allocate_transmit_buffer() returned %zu bytes at offset %td of the raw buffer (transmit memory is 0..%zu)", b.size, b.buffer - dut->raw_pdu_buffer(), dut_t::tx_size ) );
+            return;
+        }
         const unsigned id = ref.commit_id;
         layout::header( b, std::uint16_t( 0x02 | ( len << 8 ) ) );
         fill( layout::body( b ).first, tx_tag | tag( id ), len );
+        if ( irq ) arm( *irq );
         dut->commit_transmit_buffer( b );
+        if ( irq && disarm() )
+        {
+            viol( c, 15, "lock:commit_transmit_buffer-takes-no-lock", "commit_transmit_buffer() changed the transmit ring without a lock_guard" );
+            return;
+        }
+        if ( !c.fails.empty() || c.prune ) return;
         ref.tx_sz[ ref.n_not_at_central ] = std::uint8_t( len );
         ref.commit_id = std::uint8_t( ( id + 1 ) % IDM );
         ++ref.n_in_ring; ++ref.n_not_at_central;
@@ -326,9 +367,16 @@ struct World
 
     bool can_consume() { return ref.up_n != 0 || dut->next_received().size != 0; }
 
-    void do_consume( mc::Ctx& c, const char* when )
+    void do_consume( mc::Ctx& c, const char* when, Irq* irq = nullptr )
     {
+        if ( irq ) arm( *irq );
         const write_buffer b = dut->next_received();
+        if ( irq && disarm() )
+        {
+            viol( c, 15, "lock:next_received-takes-no-lock", "next_received() read the receive ring without a lock_guard" );
+            return;
+        }
+        if ( !c.fails.empty() || c.prune ) return;
         if ( b.size == 0 )
         {
             viol( c, 15, mc::fmt( "upper:acknowledged-pdu-not-delivered:%s", when ), "next_received() is empty although an acknowledged PDU was not handed up yet" );
@@ -349,7 +397,7 @@ struct World
         ref.up_last = it.id;
         memmove( ref.up_q, ref.up_q + 1, sizeof ref.up_q - 1 );
         --ref.up_n;
-        note_class( c, 3000 + ( when[ 0 ] == 'a' ), [&]{ return mc::fmt( "upper:consumed:%s", when ); } );
+        note_class( c, 3000 + ( when[ 0 ] == 'a' ) + ( when[ 0 ] == 'i' ? 2 : 0 ), [&]{ return mc::fmt( "upper:consumed:%s", when ); } );
     }
 
     // ---------------------------------------------------------------------------------------------------------------
@@ -358,7 +406,9 @@ struct World
         // a conforming central repeats its PDU only while it was not acknowledged; FORCED=1 adds a central that repeats an
         // acknowledged PDU ( old SN together with an up to date NESN )
         if ( !FORCED && i.cact == C_RETX && ref.c_last_acked ) return false;
-        if ( MODE == 1 && ( i.uact == U_COMMIT1 || i.uact == U_COMMITMAX ) ) return false;
+        if ( MODE == 1 && ( i.uact == U_COMMIT1 || i.uact == U_COMMITMAX || i.uact == U_COMMIT1_IRQ ) ) return false;
+        if ( !with_irq && ( i.uact == U_COMMIT1_IRQ || i.uact == U_CONSUME_IRQ ) ) return false;
+        if ( i.fcp == FT_LOST && ( i.uact == U_COMMIT1_IRQ || i.uact == U_CONSUME_IRQ ) ) return false;  // no interrupt without an anchor
         if ( MODE == 2 && ( i.cact == C_DATA || i.cact == C_LLID0 ) ) return false;
         if ( i.cact == C_LLID0 && ref.llid0_sent >= max_llid0 ) return false;
         if ( i.uact == U_RESET )
@@ -379,8 +429,8 @@ struct World
         }
         switch ( i.uact )
         {
-        case U_COMMIT1: case U_COMMITMAX: return can_commit();
-        case U_CONSUME: case U_CONSUME_LATE: return can_consume();
+        case U_COMMIT1: case U_COMMITMAX: case U_COMMIT1_IRQ: return can_commit();
+        case U_CONSUME: case U_CONSUME_LATE: case U_CONSUME_IRQ: return can_consume();
         }
         return true;
     }
@@ -408,6 +458,11 @@ struct World
         // -- schedule_connection_event ------------------------------------------------------------------------------
         read_buffer rb;
         const bool full = dut->event_begin( rb );
+        if ( !full && !in_rx_memory( rb.buffer, rb.size ) )
+        {
+            viol( c, 15, "rx-buffer:outside-receive-memory", mc::fmt( "allocate_receive_buffer() returned %zu bytes at offset %td of the raw buffer (receive memory is %zu..%zu)", rb.size, rb.buffer - dut->raw_pdu_buffer(), dut_t::tx_size, dut_t::tx_size + dut_t::rx_size ) );
+            return;
+        }
 
         if ( in.uact == U_CONSUME_LATE ) do_consume( c, "after-schedule" );
         if ( !c.fails.empty() || c.prune ) return;
@@ -422,6 +477,16 @@ struct World
             if ( r.c_last_llid0 ) { r.c_last_id = 0; ++r.llid0_sent; }
             else if ( r.c_last_data ) { r.c_last_id = r.c_next_id; r.c_next_id = std::uint8_t( ( r.c_next_id + 1 ) % IDM ); }
         }
+        Irq irq{ this, &in, &c, rb, full };
+        if ( in.uact == U_COMMIT1_IRQ )      do_commit( 1, c, &irq );
+        else if ( in.uact == U_CONSUME_IRQ ) do_consume( c, "interrupted-at-lock", &irq );
+        else                                 radio_part( in, c, rb, full );
+    }
+
+    // the radio's part of a connection event: reception, interrupt handler, answer, what the central makes of it
+    void radio_part( const In& in, mc::Ctx& c, read_buffer rb, bool full )
+    {
+        Ref& r = ref;
         const bool     data = r.c_last_data, llid0 = r.c_last_llid0;
         const unsigned id   = r.c_last_id;
         const unsigned len  = llid0 ? 1 : data ? central_len( id ) : 0;
